@@ -3,6 +3,8 @@ package directive
 import (
 	"fmt"
 
+	"github.com/jsightapi/jsight-schema-core/fs"
+
 	"github.com/jsightapi/jsight-api-core/jerr"
 )
 
@@ -44,6 +46,11 @@ func (d Directive) String() string {
 func (d Directive) Equal(d2 Directive) bool {
 	return d.keywordCoords.file == d2.keywordCoords.file &&
 		d.keywordCoords.begin == d2.keywordCoords.begin
+}
+
+// KeywordFile returns the file in which the directive is written.
+func (d Directive) KeywordFile() *fs.File {
+	return d.keywordCoords.file
 }
 
 func (d Directive) Type() Enumeration {
